@@ -19,4 +19,9 @@ GROUPS += [
     Group("addcol/room1", "lib_addrow.c", tus=LIB, model=MODEL, mem_gb=6, defines=["FN_addcol"], dfcc=False, unwind=18, kind="bounded", timeout=1800, namebuf=512,
           bound="start state of addrow/room1 (2 structural columns, 1 row, arbitrary sparse layout, logical first or last, room for one more column); new column with 0..1 entries, arbitrary row index, data and possibly colliding name; no basis; loops completely unwound",
           flags=["--no-malloc-may-fail"], slice=True, must_fail=["reach_end", "reach_added", "reach_bad_row_index"], functions=["ILLlib_addcol", "matrix_addcol"], props=["C06", "C07", "C17"], assumed=[ASM]),
+] + [
+    Group("addcol/grow%d" % c, "lib_addrow.c", tus=LIB, model=MODEL, mem_gb=8, defines=["FN_addcol", "FULL", "ACNT=%d" % c], dfcc=False, unwind=18, kind="bounded", timeout=2400, namebuf=(512, None, 2),
+          bound="start state of addrow/grow1 (2 structural columns, 1 row, arbitrary sparse layout, logical first or last) with EVERY per-column array full (colsize == ncols, structsize == nstruct, matcolsize == ncols; integer marks present or not): the call must grow each of them; growth steps EXTRA_ROWS / EXTRA_COLS reduced from 100 to 2 (the one line defining each is replaced in the instantiated source); new column with exactly %d entries, arbitrary row index, data and possibly colliding name; no basis; the matrix has free space (its realloc branch is not reached); loops completely unwound" % c,
+          flags=["--no-malloc-may-fail"], slice=True, must_fail=["reach_end", "reach_added", "reach_bad_row_index"], functions=["ILLlib_addcol", "matrix_addcol"], props=["C06", "C07", "C17"], assumed=[ASM])
+    for c in (0, 1)
 ]
